@@ -1,7 +1,9 @@
 """Write seeded/<id>/meta.json from the patch, the confirmation logs and the sweep results."""
 import json, os, re, glob
 ROOT = '/verif/seeded'
-INITIAL_MISS = {'C05-10': 'the decimal lexical-form enumeration (no exponent form in xs:decimal) ran under C18 only; C05 re-checked the timestamp lemma but trusted the decimal one',
+INITIAL_MISS = {'C14-10': 'the ProbeMatches handler was under contract only through _add_remote_service (one entry per message in every bounded history); an early return inside its loop over several entries was not excluded',
+                'C17-9': 'two cooperating sites: the reader rejects an unsupported coding before reading the body, the handler answers 415 and keeps the connection; nothing stated that a failed read always closes the connection (unread body bytes are parsed as the next request)',
+                'C05-10': 'the decimal lexical-form enumeration (no exponent form in xs:decimal) ran under C18 only; C05 re-checked the timestamp lemma but trusted the decimal one',
                 'C15-6': 'the send loop was proved never to send the queue head early, but nothing stated that the queue is ordered by due time (dataclass field order is the sort key)',
                 'C07-4': 'the deep-copy obligation of write_entity existed under C02 only and was reported there as undecided (copy.copy had no summary); C07 did not re-check that committed states share nothing with the entity the application keeps',
                 'C13-6': 'nothing constrained what ends up in the reason phrase of the status line (http.server encodes it as strict latin-1 and writes it verbatim); the bounded requests were ASCII',
